@@ -16,6 +16,7 @@ import Wormhole.Tie.MailboxOpen
 import Wormhole.Tie.Messages
 import Wormhole.Tie.Claim
 import Wormhole.Tie.Release
+import Wormhole.Tie.MailboxClose
 
 set_option linter.unusedSimpArgs false
 
@@ -214,6 +215,100 @@ theorem e_release_delete (s : Sys) (npid : Nat) :
   exact (release_delete_nameplate s.db npid).pos
     (by simp [bindArgs, evalArg, AppNamespace_release_nameplate__delete_nameplates_0, List.lookup, SV.toCell])
 
+/-! ### Mailbox.close -/
+
+theorem e_close_select (s : Sys) (app mb : String) :
+    EntryOne "Mailbox_close__select_mailboxes_0" Mailbox_close__select_mailboxes_0 [.str app, .str mb] s := by
+  refine ⟨by simp [GenSql.all, List.lookup], rfl, (optRow .mb (s.db.findMailbox app mb)), by simp [stmtSem], ?_⟩
+  have h := (close_select_mailbox s.db app mb).result
+  have hb : bindArgs Mailbox_close__select_mailboxes_0 [("self._app_id", .text app), ("self._mailbox_id", .text mb)] = [.text app, .text mb] := by
+    simp [bindArgs, evalArg, Mailbox_close__select_mailboxes_0, List.lookup]
+  rw [hb] at h
+  simp only [List.map, SV.toCell, h, findMailbox_fetchone, asNat_natCast]
+  cases s.db.findMailbox app mb <;> rfl
+
+theorem e_close_select_side (s : Sys) (mb side : String) :
+    EntryOne "Mailbox_close__select_mailbox_sides_0" Mailbox_close__select_mailbox_sides_0 [.str mb, .str side] s := by
+  refine ⟨by simp [GenSql.all, List.lookup], rfl, (optRow .mbs (s.db.findMbSide mb side)), by simp [stmtSem], ?_⟩
+  have h := (close_select_side s.db mb side).result
+  have hb : bindArgs Mailbox_close__select_mailbox_sides_0 [("self._mailbox_id", .text mb), ("side", .text side)] = [.text mb, .text side] := by
+    simp [bindArgs, evalArg, Mailbox_close__select_mailbox_sides_0, List.lookup]
+  rw [hb] at h
+  simp only [List.map, SV.toCell, h, findMbSide_fetchone, asNat_natCast]
+  cases s.db.findMbSide mb side <;> rfl
+
+theorem e_close_update_none (s : Sys) (mb side : String) :
+    EntryWrite "Mailbox_close__update_mailbox_sides_0" Mailbox_close__update_mailbox_sides_0 [.bool false, .none, .str mb, .str side] s := by
+  refine ⟨by simp [GenSql.all, List.lookup], rfl, (s.db.closeSide mb side none), .none, by simp [stmtSem, Sys.modDb, ofOptStr], ?_⟩
+  exact (close_update_side s.db mb side none).pos
+    (by simp [bindArgs, evalArg, Mailbox_close__update_mailbox_sides_0, List.lookup, SV.toCell, ofOptStr])
+
+theorem e_close_update_some (s : Sys) (mb side mood : String) :
+    EntryWrite "Mailbox_close__update_mailbox_sides_0" Mailbox_close__update_mailbox_sides_0 [.bool false, .str mood, .str mb, .str side] s := by
+  refine ⟨by simp [GenSql.all, List.lookup], rfl, (s.db.closeSide mb side (some mood)), .none, by simp [stmtSem, Sys.modDb, ofOptStr], ?_⟩
+  exact (close_update_side s.db mb side (some mood)).pos
+    (by simp [bindArgs, evalArg, Mailbox_close__update_mailbox_sides_0, List.lookup, SV.toCell, ofOptStr])
+
+theorem e_close_select_sides (s : Sys) (mb : String) :
+    EntryAll "Mailbox_close__select_mailbox_sides_1" Mailbox_close__select_mailbox_sides_1 [.str mb] s := by
+  refine ⟨by simp [GenSql.all, List.lookup], rfl, ((s.db.mbSidesOf mb).map .mbs), by simp [stmtSem], ?_⟩
+  have h := (close_select_sides s.db mb).result
+  have hb : bindArgs Mailbox_close__select_mailbox_sides_1 [("self._mailbox_id", .text mb)] = [.text mb] := by
+    simp [bindArgs, evalArg, Mailbox_close__select_mailbox_sides_1, List.lookup]
+  rw [hb] at h
+  simp only [List.map, SV.toCell, h, List.map_map]
+  congr 1
+
+theorem e_close_select_nameplates (s : Sys) (app mb : String) :
+    EntryAll "Mailbox_close__select_nameplates_0" Mailbox_close__select_nameplates_0 [.str app, .str mb] s := by
+  refine ⟨by simp [GenSql.all, List.lookup], rfl, ((s.db.nameplatesOfMailbox app mb).map .np), by simp [stmtSem], ?_⟩
+  have h := (close_select_nameplates s.db app mb).result
+  have hb : bindArgs Mailbox_close__select_nameplates_0 [("self._app_id", .text app), ("self._mailbox_id", .text mb)] = [.text app, .text mb] := by
+    simp [bindArgs, evalArg, Mailbox_close__select_nameplates_0, List.lookup]
+  rw [hb] at h
+  simp only [List.map, SV.toCell, h, List.map_map]
+  congr 1
+
+theorem e_close_select_nameplate_sides (s : Sys) (npid : Nat) :
+    EntryAll "Mailbox_close__select_nameplate_sides_0" Mailbox_close__select_nameplate_sides_0 [.int npid] s := by
+  refine ⟨by simp [GenSql.all, List.lookup], rfl, ((s.db.npSidesOf npid).map .nps), by simp [stmtSem], ?_⟩
+  have h := (close_select_nameplate_sides s.db npid).result
+  have hb : bindArgs Mailbox_close__select_nameplate_sides_0 [("np_row['id']", .int npid)] = [.int npid] := by
+    simp [bindArgs, evalArg, Mailbox_close__select_nameplate_sides_0, List.lookup]
+  rw [hb] at h
+  simp only [List.map, SV.toCell, h, List.map_map]
+  congr 1
+
+theorem e_close_delete_nameplate_sides (s : Sys) (app mb : String) :
+    EntryWrite "Mailbox_close__delete_nameplate_sides_0" Mailbox_close__delete_nameplate_sides_0 [.str app, .str mb] s := by
+  refine ⟨by simp [GenSql.all, List.lookup], rfl, (s.db.delNpSidesOfMailbox app mb), .none, by simp [stmtSem, Sys.modDb], ?_⟩
+  exact (close_delete_nameplate_sides s.db app mb).pos
+    (by simp [bindArgs, evalArg, Mailbox_close__delete_nameplate_sides_0, List.lookup, SV.toCell])
+
+theorem e_close_delete_nameplates (s : Sys) (app mb : String) :
+    EntryWrite "Mailbox_close__delete_nameplates_0" Mailbox_close__delete_nameplates_0 [.str app, .str mb] s := by
+  refine ⟨by simp [GenSql.all, List.lookup], rfl, (s.db.delNameplatesOfMailbox app mb), .none, by simp [stmtSem, Sys.modDb], ?_⟩
+  exact (close_delete_nameplates s.db app mb).pos
+    (by simp [bindArgs, evalArg, Mailbox_close__delete_nameplates_0, List.lookup, SV.toCell])
+
+theorem e_close_delete_messages (s : Sys) (mb : String) :
+    EntryWrite "Mailbox_close__delete_messages_0" Mailbox_close__delete_messages_0 [.str mb] s := by
+  refine ⟨by simp [GenSql.all, List.lookup], rfl, (s.db.delMessagesOf mb), .none, by simp [stmtSem, Sys.modDb], ?_⟩
+  exact (close_delete_messages s.db mb).pos
+    (by simp [bindArgs, evalArg, Mailbox_close__delete_messages_0, List.lookup, SV.toCell])
+
+theorem e_close_delete_mailbox_sides (s : Sys) (mb : String) :
+    EntryWrite "Mailbox_close__delete_mailbox_sides_0" Mailbox_close__delete_mailbox_sides_0 [.str mb] s := by
+  refine ⟨by simp [GenSql.all, List.lookup], rfl, (s.db.delMbSidesOf mb), .none, by simp [stmtSem, Sys.modDb], ?_⟩
+  exact (close_delete_mailbox_sides s.db mb).pos
+    (by simp [bindArgs, evalArg, Mailbox_close__delete_mailbox_sides_0, List.lookup, SV.toCell])
+
+theorem e_close_delete_mailbox (s : Sys) (mb : String) :
+    EntryWrite "Mailbox_close__delete_mailboxes_0" Mailbox_close__delete_mailboxes_0 [.str mb] s := by
+  refine ⟨by simp [GenSql.all, List.lookup], rfl, (s.db.delMailbox mb), .none, by simp [stmtSem, Sys.modDb], ?_⟩
+  exact (close_delete_mailbox s.db mb).pos
+    (by simp [bindArgs, evalArg, Mailbox_close__delete_mailboxes_0, List.lookup, SV.toCell])
+
 /-! ### coverage -/
 
 /-- the statement names that have an entry theorem above -/
@@ -226,6 +321,10 @@ def tiedNames : List String := [
   "AppNamespace_claim_nameplate__select_nameplate_sides_1", "AppNamespace_release_nameplate__select_nameplates_0",
   "AppNamespace_release_nameplate__select_nameplate_sides_0", "AppNamespace_release_nameplate__update_nameplate_sides_0",
   "AppNamespace_release_nameplate__select_nameplate_sides_1", "AppNamespace_release_nameplate__delete_nameplate_sides_0",
-  "AppNamespace_release_nameplate__delete_nameplates_0"]
+  "AppNamespace_release_nameplate__delete_nameplates_0",
+  "Mailbox_close__select_mailboxes_0", "Mailbox_close__select_mailbox_sides_0", "Mailbox_close__update_mailbox_sides_0",
+  "Mailbox_close__select_mailbox_sides_1", "Mailbox_close__select_nameplates_0", "Mailbox_close__select_nameplate_sides_0",
+  "Mailbox_close__delete_nameplate_sides_0", "Mailbox_close__delete_nameplates_0", "Mailbox_close__delete_messages_0",
+  "Mailbox_close__delete_mailbox_sides_0", "Mailbox_close__delete_mailboxes_0"]
 
 end Wormhole.Tie
